@@ -611,9 +611,10 @@ def _campaign(tier, seed, extra_progs):
             jobs = [{"id": "%s#c%d" % (r["id"], k), "text": byname_[r["prog"]]["text"], "mode": r["mode"], "typecheck": True, "execute": True, "monitor": bool(r["monitor"]),
                      "subscriber": bool(r.get("subscriber")), "gomaxprocs": r["gomaxprocs"], "seed": r["seed"] + k + 1, "yield": r["yield"], "trace": True, "dump": False,
                      "max_ms": 12000, "max_events": 30000} for k in range(3)]
-            rr = vlib.run_jobs(os.path.join(vlib.BUILD, "vdrive"), jobs, batch=1, timeout=40, parallel=3)
-            valid = [x for x in rr.values() if not x.get("crash") and not x.get("hang") and not x.get("timeout") and not x.get("late")
-                     and not (x.get("events") and premature_quiescence(x["events"], r["mode"]))]
+            # the repetitions wait 3 s without any hook event before they let the interpreter declare quiescence: a process that has not moved by
+            # then is stuck, not starved, so the structural "could still move" filter is not applied to them
+            rr = vlib.run_jobs(os.path.join(vlib.BUILD, "vdrive"), jobs, batch=1, timeout=60, parallel=3, extra_env={"VERIF_SETTLE_MS": "3000"})
+            valid = [x for x in rr.values() if not x.get("crash") and not x.get("hang") and not x.get("timeout") and not x.get("late")]
             r["reruns"] = len(valid)
             r["confirm"] = sum(1 for x in valid if sorted(x.get("prints") or []) != refbag(r["prog"])) + sum(1 for x in rr.values() if x.get("crash"))
         exh = exhaustive(small, work, timeout=300 if tier == "quick" else 1500,
@@ -638,7 +639,7 @@ def _campaign(tier, seed, extra_progs):
         tm["replay"] = time.time() - t1
         rejq = {x["id"] for x in val["rejected"] + valnp["rejected"] if x.get("event") and x["event"].get("e") == "quiesce"}
         for r in runs:
-            r["premature"] = bool(r["events"]) and (r["id"] in rejq or premature_quiescence(r["events"], r["mode"]))
+            r["premature"] = bool(r["events"]) and (r["id"] in rejq or premature_quiescence(r["events"], r["mode"])) and not r.get("confirm", 0) >= 1
             r["nevents"] = len(r["events"])
             r["events"] = r["events"][:0]
         # reference semantics: confluence of the reference on the small programs, and every observed print sequence
